@@ -112,11 +112,13 @@ let parse_tuple (v : value) : tkey * ntuple =
 let hx s = hex_of_string s
 let cs l = hex_of_string (coq_to_bytes l)
 
-(* first non-OK verdict by severity *)
+(* first non-OK verdict: PROP, then DIFF, then KNOWN *)
 let combine (vs : String.t list) : String.t =
   let pick p = List.find_opt (fun v -> String.length v >= String.length p && String.sub v 0 (String.length p) = p) vs in
-  match pick "DIFF" with Some v -> v | None ->
+  (* the pair predicate only looks at the implementation's keys and the abstract inputs, so a
+     PROP verdict stands on its own and is the more informative one *)
   match pick "PROP" with Some v -> v | None ->
+  match pick "DIFF" with Some v -> v | None ->
   match pick "KNOWN" with Some v -> v | None -> "OK"
 
 let cmp name model impl = if model = impl then "OK" else Printf.sprintf "DIFF %s model=%s impl=%s" name model impl
